@@ -408,6 +408,8 @@ ApplyPrim(s, n, a, k) ==
               ELSE [s EXCEPT !.ctrl = Ret(s.vecs[a[1].id].xs[a[2].v + 1]), !.kont = k]
          [] n = "vector-set!" ->
               IF a[1].t # "vec" \/ a[2].t # "int" THEN Fail(s, "WrongType")
+              \* a constant vector AND an index outside it: two faults, either may be the one reported
+              ELSE IF ~s.vecs[a[1].id].mut /\ (a[2].v < 0 \/ a[2].v >= Len(s.vecs[a[1].id].xs)) THEN Fail(s, "ImmutableVector|IndexRange")
               ELSE IF ~s.vecs[a[1].id].mut THEN Fail(s, "ImmutableVector")
               ELSE IF a[2].v < 0 \/ a[2].v >= Len(s.vecs[a[1].id].xs) THEN Fail(s, "IndexRange")
               ELSE [s EXCEPT !.vecs[a[1].id].xs[a[2].v + 1] = a[3], !.ctrl = Ret(Unspec), !.kont = k]
